@@ -48,6 +48,13 @@ deriving Repr
 /-- `np.any(np.isfinite(values))` -/
 def anyFinite (t : Target) : Bool := t.vals.any XVal.isFinite
 
+/-- `np.all(np.isfinite(values))` -/
+def allFinite (t : Target) : Bool := t.vals.all XVal.isFinite
+
+/-- the side is a target at all: given as a `Timeseries`, or holding at least one finite number
+    (an unset side is the scalar NaN) -/
+def hasSide (t : Target) : Bool := t.isSeries || anyFinite t
+
 /-- `Goal.is_empty` (goal_programming_mixin_base.py 296-320) -/
 def isEmpty (g : Goal) : Bool :=
   let minSet := g.targetMin.isSeries || anyFinite g.targetMin
